@@ -3,7 +3,7 @@
    _SerializableDesignerPolicyBase.suggest (kept rqs = the policy state is carried over or restored: dump/load keep
    the incorporated-id set). *)
 From VZ Require Import Base.Prelude Model.TrialCache Proofs.TrialCacheP.
-From VZ Require Model.TrialCacheIR Gen.TrialCacheSrc Proofs.TrialCacheSrcP.
+From VZ Require Model.TrialCacheIR Gen.TrialCacheSrc Proofs.TrialCacheSrcP Model.PolicyIR Gen.PolicySrc Proofs.PolicySrcP.
 
 (* guard: ids are unique and <= max_trial_id at every request, and max_trial_id never decreases (hist_ok) *)
 Theorem C12_exactly_once_partial : forall rqs, hist_ok 0 rqs ->
@@ -80,3 +80,20 @@ Theorem C12_source_restart_keeps_the_cache :
   TrialCacheSrc.src_load = TrialCacheIR.LoadSetOfList true true /\ TrialCacheSrc.src_clear = TrialCacheIR.ClearToEmptySet.
 Proof. repeat split. Qed.
 Print Assumptions C12_source_restart_keeps_the_cache.
+
+(* THE POLICIES ARE THE SOURCE.  Gen/PolicySrc.v is regenerated at every run from designer_policy.py: the steps of
+   DesignerPolicy.suggest (fresh designer, ALL completed, ALL active, update) and of _SerializableDesignerPolicyBase.suggest
+   (initialise / restore, NEWLY completed up to max_trial_id from the id cache, ALL active, update, suggest, dump under the policy's
+   namespace), and _initialize_designer (a DecodeError starts over with a fresh designer and a cleared id cache).  What
+   Designer.update receives according to these steps is what `serve` / `serve_fresh` say, and the state is dumped after the update. *)
+Theorem C12_source_stateful_policy_is_the_model : forall inc lost rq,
+  PolicyIR.run_policy PolicySrc.src_initialise PolicySrc.src_stateful_policy inc lost rq
+  = (Some (fst (serve (if lost then [] else inc) rq)), snd (serve (if lost then [] else inc) rq)).
+Proof. exact PolicySrcP.src_stateful_policy_is_serve. Qed.
+Theorem C12_source_fresh_policy_is_the_model : forall inc lost rq,
+  fst (PolicyIR.run_policy PolicySrc.src_initialise PolicySrc.src_fresh_policy inc lost rq) = Some (serve_fresh rq).
+Proof. exact PolicySrcP.src_fresh_policy_is_serve_fresh. Qed.
+Theorem C12_source_state_is_dumped_after_the_update : PolicyIR.dumps_after_update PolicySrc.src_stateful_policy false = true.
+Proof. exact PolicySrcP.src_state_is_dumped_after_the_update. Qed.
+Print Assumptions C12_source_stateful_policy_is_the_model.
+Print Assumptions C12_source_fresh_policy_is_the_model.
